@@ -4,7 +4,9 @@
 EXTENDS Media, Json
 CONSTANTS DEPTH, NIMG, NSLIDES, OPS,
           ARGS, VIAS,     \* size-argument patterns and sources explored by AddPicture
-          LOGO            \* 0: the deck is the default template; i > 0: slide layout 11 of the initial deck carries a picture of image i
+          LOGO,           \* 0: the deck is the default template; i > 0: slide layout 11 of the initial deck carries a picture of image i
+          NPRE            \* the deck as opened already shows the images 1..NPRE on its second slide (parts image1 .. image<NPRE>): with NPRE >= 10
+                          \* the sequence numbers cross a decimal-digit boundary (image10 sorts before image2 as TEXT)
 VARIABLES st, hist
 DummyU == <<>>
 AllArgs == {"none", "w", "h", "both"}
@@ -17,7 +19,7 @@ Stored(parts) == {p.img : p \in parts}
 Store(parts, i) == IF i \in Stored(parts) THEN parts ELSE parts \cup {[img |-> i, num |-> NextNum(parts)]}
 Use(s, i) == [s EXCEPT !.parts = Store(@, i), !.used = @ \cup {i}]
 Act(op, slide, img, args, via) == [op |-> op, slide |-> slide, img |-> img, args |-> args, via |-> via, cx |-> 1234567, cy |-> 765432]
-Init == st = [parts |-> IF LOGO > 0 THEN {[img |-> LOGO, num |-> 1]} ELSE {}, used |-> {}, logoLay |-> LOGO > 0,
+Init == st = [parts |-> (IF LOGO > 0 THEN {[img |-> LOGO, num |-> 1]} ELSE {}) \cup {[img |-> i, num |-> i] : i \in 1..NPRE}, used |-> 1..NPRE, logoLay |-> LOGO > 0,
               npics |-> 0, last |-> "open", reopened |-> FALSE] /\ hist = <<>>
 Step(a, t) == Len(hist) < DEPTH /\ a.op \in OPS /\ st' = [t EXCEPT !.last = a.op] /\ hist' = Append(hist, a)
 AddPicture == \E k \in 1..NSLIDES, i \in 1..NIMG, g \in ARGS, v \in VIAS :
